@@ -42,7 +42,7 @@ def verify_one(args):
         from specs.schema import SCHEMA
         specs = load_specs()
         spec = specs[fid]
-        eng = Engine(Repo(repo_root), SCHEMA, specs, timeout_ms=10000 if tier == 'quick' else 60000,
+        eng = Engine(Repo(repo_root), SCHEMA, specs, timeout_ms=20000 if tier == 'quick' else 60000,
                      both=(tier == 'thorough'))
         info = eng.verify_function(spec)
         obs = [dict(oid=o.oid, kind=o.kind, status=o.status, backend=o.backend, time_s=o.time_s,
